@@ -1791,6 +1791,24 @@ impl RdfExpressionPredicate {
                 // For RDF, treat property access as variable access
                 self.bound_value(variable, chunk, row)
             }
+            FilterExpression::Binary {
+                left,
+                op: op @ (BinaryFilterOp::And | BinaryFilterOp::Or),
+                right,
+            } => {
+                // || and && are three-valued: an error in one operand does not matter
+                // when the other one decides the result (true || error = true,
+                // false && error = false)
+                let left_val = self.eval_expr(left, chunk, row).and_then(|v| v.as_bool());
+                let right_val = self.eval_expr(right, chunk, row).and_then(|v| v.as_bool());
+                let decisive = matches!(op, BinaryFilterOp::Or);
+                match (left_val, right_val) {
+                    (Some(l), _) if l == decisive => Some(Value::Bool(decisive)),
+                    (_, Some(r)) if r == decisive => Some(Value::Bool(decisive)),
+                    (Some(_), Some(_)) => Some(Value::Bool(!decisive)),
+                    _ => None,
+                }
+            }
             FilterExpression::Binary { left, op, right } => {
                 let left_val = self.eval_expr(left, chunk, row)?;
                 let right_val = self.eval_expr(right, chunk, row)?;
